@@ -192,8 +192,8 @@ func main() {
 	nw := *workers
 	if nw == 0 {
 		nw = 16 / len(entries)
-		if nw < 2 {
-			nw = 2
+		if nw < 4 {
+			nw = 4
 		}
 	}
 	results := make([]*Explorer, len(entries))
